@@ -71,6 +71,8 @@ pub struct RunOpts {
     pub dump_after_error: bool,
     /// record the model and both header pages after every commit
     pub snap_headers: bool,
+    /// emit shim markers (BEGIN / OK / ERR) around every commit
+    pub markers: bool,
     pub final_reopen: bool,
     /// scratch file path
     pub path: PathBuf,
@@ -91,6 +93,7 @@ impl RunOpts {
             bytes_unchanged: false,
             dump_after_error: false,
             snap_headers: false,
+            markers: false,
             final_reopen: true,
             path,
             keep_file: false,
@@ -133,6 +136,13 @@ pub struct CaseStats {
     pub seeks: u64,
     pub ranges: u64,
     pub fsck_runs: u64,
+}
+
+/// Marker for the I/O shim (a write to an invalid descriptor; harmless without the shim).
+pub fn mark(text: &str) {
+    unsafe {
+        libc::write(-4242, text.as_ptr() as *const libc::c_void, text.len());
+    }
 }
 
 pub fn open_db(cfg: &Cfg, path: &FsPath) -> Result<DB, Failure> {
@@ -1502,10 +1512,25 @@ pub fn run_tx(
         stats.multi_leaf_tx_with_delete_and_insert = true;
     }
     match spec.kind {
-        TxKind::Commit => match tx.commit() {
-            Ok(()) => Ok(true),
-            Err(e) => Err(Failure::new("commit_err", format!("commit failed: {}", e))),
-        },
+        TxKind::Commit => {
+            if opts.markers {
+                mark("BEGIN");
+            }
+            match tx.commit() {
+                Ok(()) => {
+                    if opts.markers {
+                        mark("OK");
+                    }
+                    Ok(true)
+                }
+                Err(e) => {
+                    if opts.markers {
+                        mark("ERR");
+                    }
+                    Err(Failure::new("commit_err", format!("commit failed: {}", e)))
+                }
+            }
+        }
         TxKind::Read => {
             // commit on a reader must be refused
             match tx.commit() {
@@ -1596,6 +1621,11 @@ pub struct Outcome {
 
 /// Runs a whole history. The scratch file at opts.path is created fresh unless start_model is set.
 pub fn run_history(case: &HistoryCase, opts: &RunOpts) -> Outcome {
+    run_history_with(case, opts, None)
+}
+
+/// As `run_history`, optionally continuing on an already open handle (the file is then not re-created).
+pub fn run_history_with(case: &HistoryCase, opts: &RunOpts, db: Option<DB>) -> Outcome {
     let mut stats = CaseStats::default();
     let mut model = opts.start_model.clone().unwrap_or_default();
     if opts.start_model.is_none() {
@@ -1603,7 +1633,7 @@ pub fn run_history(case: &HistoryCase, opts: &RunOpts) -> Outcome {
     }
     let mut commit_models = Vec::new();
     let mut header_snaps = Vec::new();
-    let result = run_history_inner(case, opts, &mut stats, &mut model, &mut commit_models, &mut header_snaps);
+    let result = run_history_inner(case, opts, &mut stats, &mut model, &mut commit_models, &mut header_snaps, db);
     if !opts.keep_file {
         let _ = std::fs::remove_file(&opts.path);
     }
@@ -1623,9 +1653,16 @@ fn run_history_inner(
     model: &mut MBucket,
     commit_models: &mut Vec<MBucket>,
     header_snaps: &mut Vec<Vec<u8>>,
+    initial_db: Option<DB>,
 ) -> Result<(), Failure> {
     let cfg = &case.cfg;
-    let mut db = Some(open_db(cfg, &opts.path).map_err(|f| f.at(0, None))?);
+    let mut db = match initial_db {
+        Some(d) => Some(d),
+        None => Some(open_db(cfg, &opts.path).map_err(|f| f.at(0, None))?),
+    };
+    if opts.markers {
+        mark("OPENED");
+    }
     let mut prev_stats: Option<fsck::Stats> = None;
     let mut pending_rollback = false;
     let initial_len = std::fs::metadata(&opts.path).map(|m| m.len()).unwrap_or(0);
@@ -1674,9 +1711,11 @@ fn run_history_inner(
                         let changed = work != *model;
                         *model = work;
                         stats.commits += 1;
+                        if opts.snap_headers || opts.markers {
+                            commit_models.push(model.clone());
+                        }
                         if opts.snap_headers {
                             use std::io::Read;
-                            commit_models.push(model.clone());
                             let mut buf = vec![0u8; 2 * cfg.pagesize as usize];
                             if let Ok(mut f) = std::fs::File::open(&opts.path) {
                                 let _ = f.read_exact(&mut buf);
